@@ -78,6 +78,13 @@ def descriptors() -> dict[str, NodeV]:
                        **{"from": node("From", this=table("T"))})
     d["SELECT qualified"] = node("Select", "stmt", expressions=Lst([node("Star")]),
                                  **{"from": node("From", this=table("T", "S", "D"))})
+    # <nothing>.information_schema.<view>: the schema part is given (and is a name every database has), the database is not
+    _isv = NodeV("Table", {"this": NodeV("Identifier", {"this": Const("SCHEMATA"), "quoted": Const(False)}, name="id:SCHEMATA", open=False),
+                           "db": NodeV("Identifier", {"this": Const("INFORMATION_SCHEMA"), "quoted": Const(False)}, name="id:INFORMATION_SCHEMA", open=False)},
+                 name="tbl:INFORMATION_SCHEMA.SCHEMATA", open=False)
+    for v_ in _isv.args.values():
+        v_.parent = _isv
+    d["SELECT information_schema view"] = node("Select", "stmt", expressions=Lst([node("Star")]), **{"from": node("From", this=_isv)})
     # a fully qualified table in a scalar subquery of the projection, an unqualified one in FROM: the statement still
     # needs the current database and schema (the FROM table is the shallowest one)
     d["SELECT qualified subquery in projection"] = node(
